@@ -156,3 +156,16 @@ Proof.
   intros H t Hin. apply in_split in Hin. destruct Hin as (pre & post & ->).
   apply run_split in H. destruct H as (s1 & s2 & _ & H2 & _). discriminate H2.
 Qed.
+
+(* ... nor a 2xx answer of patch_port_value for a value that was not queued *)
+Theorem no_side_exit cap tr s : run cap init tr = Some s -> forall e, In e tr -> is_side_exit e = false.
+Proof.
+  intros H e Hin. apply in_split in Hin. destruct Hin as (pre & post & ->).
+  apply run_split in H. destruct H as (s1 & s2 & _ & H2 & _). destruct e; try reflexivity; discriminate H2.
+Qed.
+
+Corollary all_queued_accepted cap tr s : run cap init tr = Some s -> all_queued tr = true.
+Proof.
+  intros H. unfold all_queued. apply Bool.negb_true_iff. apply Bool.not_true_is_false. intros X.
+  apply existsb_exists in X. destruct X as (e & Hin & He). rewrite (no_side_exit cap tr s H e Hin) in He. discriminate.
+Qed.
